@@ -386,13 +386,14 @@ class TrigTime:
             #
             State.set(__test_handshake__[0], __test_handshake__[1])
 
+        # "now" in time specifications is fixed at the first evaluation, for the whole wait
+        startup_time = None
         try:
             while True:
                 ret = None
                 this_timeout = None
                 state_trig_timeout = False
                 time_next = None
-                startup_time = None
                 now = dt_now()
                 if startup_time is None:
                     startup_time = now
